@@ -1,6 +1,6 @@
 """Sidecar contracts for tefra/xsdata, keyed by module:QualName (see DESIGN.md §2.1)."""
 
-MODULES = ["c06_dates", "c03_namespaces", "c05_converters", "c10_strictness", "c09_infoset", "c06_datatypes", "c05_factory", "c14_history", "c17_client", "c03_writer", "c15_clean_failure", "c07_names", "c04_dict"]
+MODULES = ["c06_dates", "c03_namespaces", "c05_converters", "c10_strictness", "c09_infoset", "c06_datatypes", "c05_factory", "c14_history", "c17_client", "c03_writer", "c15_clean_failure", "c07_names", "c04_dict", "c18_code"]
 
 # helpers executed by inlining their real source instead of through a contract (listed in evidence)
 INLINE = ["calendar:isleap"]
@@ -8,6 +8,15 @@ INLINE = ["calendar:isleap"]
 NODES = "xsdata.formats.dataclass.parsers.nodes"
 
 PROPERTIES = {
+    "C18": {
+        "min_obligations": 30,
+        "canaries": [
+            {"name": "build_imports-imports-the-nested-name", "function": "xsdata.formats.dataclass.serializers.code:PycodeSerializer.build_imports#one-type",
+             "module": "xsdata.formats.dataclass.serializers.code", "target": "PycodeSerializer.build_imports",
+             "old": "name = name.split('.')[0]", "new": "name = name"},
+        ],
+        "decided": [], "not_decided": [], "bounded": [], "trusted_base": [], "assumptions": [],
+    },
     "C04": {
         "min_obligations": 30,
         "canaries": [
